@@ -1,6 +1,6 @@
 //! C03 — a text is a straight-line program: later lines see the latest binding.
 
-use crate::explore::{Family, Mode, Verdict};
+use crate::explore::{Bfs, Family, Mode, Verdict};
 use crate::obs::{self, Base, Run, Slot, Val};
 use crate::runner::{Cfg, Ctx, Prop, Tier};
 use crate::spec::spec;
@@ -13,6 +13,10 @@ pub struct C03;
 #[derive(Clone, Debug, Serialize, Deserialize)]
 pub struct Case {
     pub lines: Vec<String>,
+    /// merged breadth-first layer: bound on the numeric values of the state constraint; the
+    /// verdict then carries the canonical key of the environment reached
+    #[serde(default, skip_serializing_if = "Option::is_none")]
+    pub bfs: Option<i64>,
 }
 
 // ---- reference environment -------------------------------------------------------------
@@ -307,7 +311,7 @@ impl Prop for C03 {
                 for _ in 0..n {
                     lines.push(ch.pick(&NUM_LINES).to_string());
                 }
-                Some(Case { lines })
+                Some(Case { lines, bfs: None })
             },
         ));
         f.push(Family::new(
@@ -321,9 +325,26 @@ impl Prop for C03 {
                     lines.push(ch.pick(&KIND_MIDDLE).to_string());
                 }
                 lines.push(ch.pick(&KIND_USES).to_string());
-                Some(Case { lines })
+                Some(Case { lines, bfs: None })
             },
         ));
+        {
+            const UNI_LINES: [&str; 14] = ["ölçü = 5", "Ölçü = 7", "ÖLÇÜ = ölçü + 1", "ölçü", "Ölçü + 1", "2 * ÖLÇÜ", "цена = 4", "Цена + 1", "ЦЕНА = цена + 10", "цена", "ölçü = 1 +", "Цена = 1 usd + 1 km", "ölçü цена", "b = Ölçü"];
+            let du = tier.pick(3, 4);
+            f.push(Family::new(
+                "unicode-name-programs",
+                Mode::Full,
+                &format!("every program of 1..={} lines over {} line kinds that bind, re-bind and use the non-ASCII names 'ölçü' and 'цена' in lower, Capitalised and UPPER case (simple one-to-one case pairs only; dotted/dotless i is left out), incl. failing re-bindings", du, UNI_LINES.len()),
+                move |ch| {
+                    let n = 1 + ch.choose(du);
+                    let mut lines = Vec::new();
+                    for _ in 0..n {
+                        lines.push(ch.pick(&UNI_LINES).to_string());
+                    }
+                    Some(Case { lines, bfs: None })
+                },
+            ));
+        }
         if tier == Tier::Thorough {
             f.push(Family::new(
                 "number-programs-deep",
@@ -336,14 +357,33 @@ impl Prop for C03 {
                         lines.push(ch.pick_dev(&all).to_string());
                     }
                     lines.push("a".to_string());
-                    Some(Case { lines })
+                    Some(Case { lines, bfs: None })
                 },
             ));
         }
         f
     }
 
+    fn bfs_layers(&self, tier: Tier) -> Vec<Bfs<Case>> {
+        let (bound, depth) = tier.pick((14i64, 6usize), (14, 10));
+        vec![Bfs::new(
+            "reachable-environments",
+            &format!("explicit-state search over programs: an edge appends one of the {} number line kinds to the shortest program that reached a state and runs the whole program three ways (LF, CRLF, re-used session) against the reference environment; a state is the model environment (names a, b, 'a b', ab with their values) together with the fingerprint of what the names evaluate to at the end of the program; state constraint: every known value within +-{} (states beyond it are checked, not expanded); depth bound {}", NUM_LINES.len(), bound, depth),
+            NUM_LINES.len(),
+            depth,
+            move |h| Case { lines: h.iter().map(|i| NUM_LINES[*i].to_string()).collect(), bfs: Some(bound) },
+        )]
+    }
+
     fn exec(&self, ctx: &mut Ctx, c: &Case) -> Verdict {
+        if c.lines.is_empty() {
+            // root of the merged layer: the empty program
+            let mut v = Verdict { input: "<empty program>".into(), class: "unspecified", ..Default::default() };
+            if c.bfs.is_some() {
+                v.key = Some("{}".into());
+            }
+            return v;
+        }
         // model
         let mut env: Env = BTreeMap::new();
         let mut preds: Vec<Option<Option<Val>>> = Vec::new();
@@ -426,6 +466,22 @@ impl Prop for C03 {
                         }
                     },
                 }
+            }
+        }
+        if let Some(bound) = c.bfs {
+            let within = env.values().all(|b| match b {
+                Binding::Known(Val::Number(x, _)) => x.abs() <= bound as f64,
+                _ => true,
+            });
+            if within {
+                // what the names denote at the end of the program, on the implementation
+                let probe_text = format!("{}\na\nb\na b\nab", c.lines.join("\n"));
+                let fp = match obs::eval(ctx.calc(&Cfg::default()), "en", &probe_text) {
+                    Run::Done(o) => format!("{:?}", &o.slots[o.slots.len().saturating_sub(4)..]),
+                    Run::Panic(p) => format!("PANIC {}", p.message),
+                };
+                v.evals += 4;
+                v.key = Some(format!("{:?}|{}", env, fp));
             }
         }
         v
